@@ -251,6 +251,15 @@ def c07_5(ctx, r):
     gif = ctx.fn("HpcManager._get_interface", "C07.5")
     okg = any(isinstance(n, ast.Return) and ctx.src(n.value) == "self._intfs[submission_group_name]" for n in iter_own(gif.node))
     r.check(okg, "_get_interface(name) = self._intfs[name]", key_of(gif, "lookup"), gif.loc(), "_get_interface no longer returns self._intfs[submission_group_name]")
+    # the name->group lookup that feeds the HPC manager comes from the same (persisted, resubmit-updatable) source as the groups iterated by run()
+    hsi = ctx.fn(f"{HS}.__init__", "C07.5")
+    stg = [ctx.stmt_of(hsi, n) for f2, n, attr, t, kind in attr_stores(ctx, {"_submission_groups"}) if f2 is hsi]
+    okl = len(stg) == 1 and render(ctx, hsi, stg[0].value) == "call:submission_group.make_submission_group_lookup(<ClusterConfig.submission_groups>)@"
+    r.check(okl, "HpcSubmitter's group lookup is built from the cluster config's groups (the ones run() iterates)", key_of(hsi, "group lookup source"), hsi.loc(),
+            f"the group lookup given to HpcManager is built from `{ctx.src(stg[0].value) if stg else None}`, not from cluster.config.submission_groups: after `resubmit-jobs -s <groups file>` batches are submitted with the "
+            "old HPC parameters of config.json while batch construction uses the new ones", "submitted with that group's HPC parameters and run options")
+    hmc = [s for s in ctx.cg.sites_in(hsi) if (s.constructs or "").endswith(".HpcManager")]
+    r.check(len(hmc) == 1 and hmc[0].node.args and ctx.src(hmc[0].node.args[0]) == "self._submission_groups", "HpcManager is constructed from that lookup", key_of(hsi, "HpcManager groups"), hsi.loc(), "HpcManager is constructed from a different set of groups")
     hi = ctx.fn("HpcManager.__init__", "C07.5")
     oki = any(isinstance(n, ast.Assign) and ctx.src(n.targets[0]) == "self._intfs[name]" and "group.submitter_params.hpc_config" in ctx.src(n.value) for n in iter_own(hi.node))
     r.check(oki, "each group's interface is built from that group's hpc_config", key_of(hi, "interfaces"), hi.loc(), "HpcManager builds interfaces from something other than each group's hpc_config")
